@@ -20,7 +20,12 @@ void execute_c01(const Plan &plan, Verdict &v) {
     g_alloc = AllocCtl();
     g_alloc.fail_all = plan.k("allocfail_all", 0) != 0;
     uint64_t total_bytes = 0;
-    uint64_t clock = 0;
+    // discrete-event clock: segments arrive after their delay; the deployment's idle timer (select() timeout in the example
+    // servers) fires when nothing arrived for idle_ms while bytes are pending and makes the zero-length call
+    Sim sim;
+    enum { EV_SEGMENT = 1, EV_IDLE = 2 };
+    uint64_t idle_ms = (uint64_t) clampl(plan.k("idle_ms", 0), 0, 100000);
+    uint64_t last_rx = 0;
     {
         World w(cfg);
         instrument_install(w, io);
@@ -37,6 +42,19 @@ void execute_c01(const Plan &plan, Verdict &v) {
             if (v.violated) break;
             if (op.kind == "in" && op.has_s) {
                 if (op.s.empty()) continue;
+                // schedule the segment, and the idle timeout that may fire before it
+                sim.after((uint64_t) clampl(op.arg(0), 0, 100000), EV_SEGMENT);
+                if (idle_ms && w.ctx->buffer.position > 0) sim.at(last_rx + idle_ms, EV_IDLE);
+                SimEvent ev;
+                while (sim.next(ev) && ev.id != EV_SEGMENT) {
+                    if (ev.id == EV_IDLE && w.ctx->buffer.position > 0) {
+                        COUNT("fault_idle_timer_fired_mid_stream");
+                        w.flush_input();
+                        if (!v.violated && w.ctx->buffer.position != 0) v.fail("flush-not-consumed", "pos", "idle-timer zero-length call left bytes pending");
+                    }
+                }
+                w.now_ms = sim.now;
+                last_rx = sim.now;
                 size_t before = w.ctx->buffer.position;
                 bool ret = w.input(op.s);
                 total_bytes += op.s.size();
@@ -54,7 +72,6 @@ void execute_c01(const Plan &plan, Verdict &v) {
                 }
                 if (any_overrun && !c.overrun) COUNT("probe_input_after_overrun");
                 check_buffer("SCPI_Input");
-                clock += 1 + (uint64_t) (op.arg(0) & 0xfff);
             } else if (op.kind == "flush") {
                 if (w.ctx->buffer.position > 0) {
                     COUNT("fault_idle_flush_with_pending");
@@ -70,7 +87,7 @@ void execute_c01(const Plan &plan, Verdict &v) {
                 w.flush_input();
                 if (!v.violated && w.ctx->buffer.position != 0) v.fail("flush-not-consumed", "pos", "zero-length call left bytes pending");
                 check_buffer("flush");
-                clock += 5000;
+                sim.now += 1;
             } else if (op.kind == "parse" && op.has_s) {
                 w.parse_line(op.s);
                 total_bytes += op.s.size();
@@ -110,7 +127,7 @@ void execute_c01(const Plan &plan, Verdict &v) {
         }
         v.trace_hash = w.hash();
         v.nontrivial = w.nontrivial;
-        v.sim_ms = clock;
+        v.sim_ms = sim.now;
     }
 #if SIM_HAS_INFO && !SIM_HEAP
     if (!v.violated && !g_alloc.live.empty())
@@ -131,7 +148,8 @@ void emit_chunks(Rng &r, Plan &p, const std::string &stream, int mode) {
             default: n = r.chance(1, 3) ? 1 : r.range(1, 24); break;
         }
         if ((size_t) n > stream.size() - pos) n = (long) (stream.size() - pos);
-        p.ops.push_back(Op("in", {(long) r.below(4)}, stream.substr(pos, (size_t) n)));
+        long delay = r.chance(9, 10) ? (long) r.below(4) : (r.chance(1, 2) ? r.range(4, 60) : r.range(60, 6000));
+        p.ops.push_back(Op("in", {delay}, stream.substr(pos, (size_t) n)));
         pos += (size_t) n;
         if (r.chance(1, 40)) p.ops.push_back(Op("flush"));
     }
@@ -152,6 +170,8 @@ void generate_c01(Rng &r, const GenOpts &g, Plan &p) {
     if (r.chance(1, 12)) p.knob["no_units"] = 1;
     if (r.chance(1, 12)) p.knob["no_control"] = 1;
     if (r.chance(1, 10)) p.knob["allocfail_all"] = 1;
+    bool idle_timer = r.chance(1, 2);
+    if (idle_timer) p.knob["idle_ms"] = (r.chance(1, 2) ? 5000 : (r.chance(1, 2) ? 50 : 1));
     int kind = (int) r.below(10);   // 0-3 grammar, 4-6 mutated, 7-8 boundary truncation, 9 raw bytes
     long nmsg = r.chance(1, 12) ? r.range(8, thorough ? 30 : 14) : r.range(1, 5);
     std::vector<std::string> msgs;
@@ -225,6 +245,9 @@ void generate_c01(Rng &r, const GenOpts &g, Plan &p) {
         for (auto &o : p.ops)
             if (o.kind != "flush") ops.push_back(o);
         p.ops.swap(ops);
+        if (idle_timer)
+            for (auto &o : p.ops)
+                if (o.kind == "in" && !o.a.empty()) o.a[0] = 0;   // a clean stream arrives without pauses longer than the idle timeout
         if (!direct_parse) p.ops.push_back(Op("expect_consumed"));
     } else if (r.chance(1, 3)) {
         p.ops.push_back(Op("flush"));
@@ -239,7 +262,7 @@ const Property C01 = {
     execute_c01,
     {"fault_oversize_chunk", "probe_input_after_overrun", "fault_idle_flush_with_pending", "probe_flush_with_partial_quote", "probe_flush_with_partial_block_candidate",
      "probe_flush_with_partial_exponent", "probe_flush_with_partial_header", "probe_remainder_moved_with_stale_tail", "probe_queue_overflow_during_parse",
-     "probe_chunk_fills_buffer_exactly", "fault_alloc_failed", "direct_parse_lines"},
+     "probe_chunk_fills_buffer_exactly", "fault_alloc_failed", "direct_parse_lines", "fault_idle_timer_fired_mid_stream"},
     "streams of 1..14 (thorough ..30) messages: grammar-generated over the full command table, byte-mutated (0x00-0xFF), boundary-truncated inside block/quote/"
     "exponent/header with the buffer sized so the cut lands at its end, or raw bytes; fed in 1-byte / <=10 / whole / random segments with idle flushes, oversize "
     "chunks, direct SCPI_Parse lines, firmware pushes and allocation/transport faults; input buffers 2..400, queues 1..8, heaps 2..64; torture handler applies every "
